@@ -3,7 +3,7 @@
     effects in the order they become visible; a boundary = a prefix of that list; a killed
     updater leaves the world at a prefix). *)
 From Coq Require Import List NArith Bool.
-From MOC.Model Require Import SetEffects.
+From MOC.Model Require Import SetEffects SetEffects2.
 Import ListNotations.
 Open Scope N_scope.
 
@@ -62,6 +62,41 @@ Theorem C16_later_write_keeps_earlier_segments : forall (D : Type) (empty_payloa
   read_seg empty_payload (write_seg off n p f) s e = read_seg empty_payload f s e.
 Proof. exact read_seg_after_write. Qed.
 
+
+(** STATUS CHANGE, every boundary: at EVERY prefix of the metadata stores of a chgstatus (any
+    list of identifiers, any file) a reader sees all the MOCs of the state before, each with
+    its complete data and with its old or its new status, and never fails *)
+Theorem C16_chgstatus_every_boundary_consistent :
+  forall (D : Type) (empty_payload : D) f ms r ids st v0 k,
+  meta f = map Some ms ++ repeat None r ->
+  view empty_payload f = Some v0 ->
+  let w := run {| main := f; lock := false; tmp := None |} (firstn k (chg_effects f ids st)) in
+  exists ms_k, view empty_payload (main w) = Some (combine ms_k (map snd v0)) /\
+               length ms_k = length ms /\ Forall2 (chg_rel st) ms ms_k.
+Proof. exact chg_prefix_consistent. Qed.
+
+(** PURGE, every boundary: the file a reader opens is the file before (untouched) up to and
+    including the last effect on the temporary file, and the completed temporary file from the
+    rename on *)
+Theorem C16_purge_every_boundary : forall (D : Type) (f0 : file D) live f k,
+  let effs := purge_effects f0 live in
+  let w := run {| main := f; lock := false; tmp := None |} (firstn k effs) in
+  ((k <= 2 + length (purge_copy D 0%nat (nth 0%nat (index f0) 0%N) live))%nat -> main w = f) /\
+  ((2 + length (purge_copy D 0%nat (nth 0%nat (index f0) 0%N) live) < k)%nat ->
+     Some (main w) = tmp (run {| main := f; lock := false; tmp := None |}
+                            ([ELock; ETmpCreate f0] ++ purge_copy D 0%nat (nth 0%nat (index f0) 0%N) live))).
+Proof. exact purge_prefix_main. Qed.
+
+(** PURGE, completed: the file that replaces the moc-set reads back as exactly the live entries
+    in order, each with its data; the lock is released and no temporary file remains *)
+Theorem C16_purge_completed_view : forall (D : Type) (empty_payload : D) f f0 live r,
+  Shape D empty_payload f0 [] (length live + r) [] ->
+  Forall (fun x => snd x = 0 -> snd (fst x) = empty_payload) live ->
+  let w := run {| main := f; lock := false; tmp := None |} (purge_effects f0 live) in
+  view empty_payload (main w) = Some (map (fun x => (fst (fst x), snd (fst x))) live) /\
+  lock w = false /\ tmp w = None.
+Proof. exact purge_completed_view. Qed.
+
 Example C16_nonvacuous :
   let m1 := {| m_st := SValid; m_id := 7; m_depth := 3 |} in
   let m2 := {| m_st := SDeprecated; m_id := 9; m_depth := 14 |} in
@@ -83,3 +118,6 @@ Print Assumptions C16_meta_before_data_refuted.
 Print Assumptions C16_status_stores_keep_data.
 Print Assumptions C16_temp_file_effects_invisible.
 Print Assumptions C16_later_write_keeps_earlier_segments.
+Print Assumptions C16_chgstatus_every_boundary_consistent.
+Print Assumptions C16_purge_every_boundary.
+Print Assumptions C16_purge_completed_view.
